@@ -6,6 +6,7 @@ import IpfixModel.Spec.Exp
 import IpfixModel.Model.Agg
 import IpfixModel.Spec.C06
 import IpfixModel.Spec.C07
+import IpfixModel.Spec.C05
 import Std.Data.HashMap
 namespace Driver
 open Ipfix
@@ -32,5 +33,6 @@ structure DState where
   agg : Agg.State := {}
   aggSpec : C06.Tracker := {}
   aggCorr : C07.Tracker := {}
+  aggArith : C05.Tracker := {}
 
 end Driver
